@@ -22,6 +22,7 @@ package main
 
 import (
 	_ "embed"
+	"encoding/json"
 	"fmt"
 	"go/ast"
 	"go/parser"
@@ -697,13 +698,19 @@ func (f *Fn) operands(row int) (a, b *Val) {
 		}
 		return nil
 	}
+	cv := func() *Val {
+		if f.C.HasV {
+			return &f.C.V
+		}
+		return nil // float / complex constants are only known as text
+	}
 	switch f.Shape {
 	case "VV":
 		return get(0), get(1)
 	case "VC":
-		return get(0), &f.C.V
+		return get(0), cv()
 	case "CV":
-		return &f.C.V, get(0)
+		return cv(), get(0)
 	}
 	return get(0), nil
 }
@@ -1626,10 +1633,22 @@ func main() {
 
 	// ---- compare
 	nfail := 0
+	var allf *os.File
+	os.Remove(a.Path("failures_all.jsonl"))
 	fail := func(f *Fn, row int, what string, got, want string) {
 		nfail++
 		in := map[string]interface{}{"func": f.Src, "operands": f.operandText(row), "op": f.opText(), "kind": f.kindText(), "shape": f.Shape, "placement": f.Place}
-		rep.Fail(vh.Failure{Key: f.Key(row), What: what, Input: in, Got: got, Want: want})
+		fl := vh.Failure{Key: f.Key(row), What: what, Input: in, Got: got, Want: want}
+		rep.Fail(fl)
+		if nfail <= 20000 { // report.json keeps the first 50; every failure is listed in failures_all.jsonl
+			if allf == nil {
+				allf, _ = os.Create(a.Path("failures_all.jsonl"))
+			}
+			if allf != nil {
+				b, _ := json.Marshal(fl)
+				allf.Write(append(b, '\n'))
+			}
+		}
 	}
 	groups := map[string][]caseRef{}
 	var gorder []string
@@ -1760,6 +1779,9 @@ func main() {
 		}
 	}
 	cases.Close()
+	if allf != nil {
+		allf.Close()
+	}
 
 	rep.Extra["coq_cases"] = idx
 	rep.Extra["functions"] = len(g.fns)
